@@ -1,5 +1,6 @@
 pub mod gen;
 pub mod oracle;
+pub mod oracle2;
 pub mod scenario;
 pub mod world;
 
@@ -49,15 +50,20 @@ impl Rig for H1Rig {
     }
     fn runs(&self, tier: Tier) -> u64 {
         match (self.prop, tier) {
-            ("C01", Tier::Quick) => 60_000,
-            ("C01", Tier::Thorough) => 2_000_000,
-            (_, Tier::Quick) => 40_000,
-            (_, Tier::Thorough) => 1_000_000,
+            ("C01", Tier::Quick) => 500_000,
+            ("C01", Tier::Thorough) => 10_000_000,
+            ("C04", Tier::Quick) => 400_000,
+            ("C04", Tier::Thorough) => 8_000_000,
+            (_, Tier::Quick) => 300_000,
+            (_, Tier::Thorough) => 5_000_000,
         }
     }
     fn gen(&self, rng: &mut Rng, idx: u64, _tier: Tier) -> H1Scenario {
         match self.prop {
             "C01" => gen::gen_c01(rng, idx),
+            "C02" => gen::gen_pipeline(rng, "C02"),
+            "C03" => gen::gen_pipeline(rng, "C03"),
+            "C04" => gen::gen_pipeline(rng, "C04"),
             _ => gen::gen_c01(rng, idx),
         }
     }
@@ -65,6 +71,9 @@ impl Rig for H1Rig {
         let out = run_h1(sc, tape, &RunOpts { narrative });
         let vs = match self.prop {
             "C01" => oracle::check_c01(sc, &out),
+            "C02" => oracle::check_c02(sc, &out),
+            "C03" => oracle2::check_c03(sc, &out),
+            "C04" => oracle2::check_c04(sc, &out),
             _ => vec![],
         };
         self.report(sc, out, vs)
